@@ -471,3 +471,33 @@ def gen_cascade(rng, n=None, part_p=0.4):
             rng.shuffle(p)
             mapping["rank-order"][t] = p
     return decl, exprs, mapping, syms, per
+
+
+# ----------------------------------------------------------------------------
+# spacetime (C16) : stamps every loop rank
+# ----------------------------------------------------------------------------
+
+def add_spacetime(rng, mapping, out, loop, coord_p=0.35, slip_p=0.3):
+    k = rng.randint(0, len(loop))
+    space = rng.sample(loop, k)
+    time = [r for r in loop if r not in space]
+    if rng.random() < 0.5:
+        rng.shuffle(time)
+
+    def styled(r):
+        x = rng.random()
+        if x < coord_p:
+            return r + ".coord"
+        if x < coord_p + 0.2:
+            return r + ".pos"
+        return r
+    st = {"space": [styled(r) for r in space], "time": [styled(r) for r in time]}
+    if rng.random() < slip_p:
+        st["opt"] = "slip"
+    mapping.setdefault("spacetime", {})[out] = st
+    return st
+
+
+def default_loop(es):
+    outr = es["decl"][es["out"]]
+    return list(outr) + [r for r in es["ranks"] if r not in outr]
